@@ -456,8 +456,9 @@ class Unit:
             if fi.qual == q and fi.sig == s:
                 self.translate(fi)
                 return fi.meta(), fi.coq
-        m = self.registry.get((q, s))
-        if m and m["unit"] in self.requires:
+        cands = [c for c in self.registry.get((q, s), []) if c["unit"] in self.requires]
+        m = cands[0] if cands else None
+        if m:
             # same source text?
             body = [f for (fq, fs, f, r) in self.idx.funcs if fq == q and fs == s]
             if body:
@@ -1163,7 +1164,7 @@ class FnTranslator:
             return self.compound_assign(e, stmt)
         if k == "ConditionalOperator":
             return self.conditional(e)
-        if k in ("CallExpr", "CXXMemberCallExpr"):
+        if k in ("CallExpr", "CXXMemberCallExpr", "CXXOperatorCallExpr"):
             return self.call(e, stmt)
         self.bad(e, "unsupported expression")
 
@@ -1475,6 +1476,28 @@ class FnTranslator:
             return "(if %s then %s else %s)" % (ct, ta, tb)
         return self.bind("(if %s then %s else %s)" % (ct, self.opt_block(pa, ta), self.opt_block(pb, tb)))
 
+    def check_stateless_temporary(self, obj, declid, e):
+        x = obj
+        while x.get("kind") in ("ImplicitCastExpr", "ParenExpr", "MaterializeTemporaryExpr", "CXXBindTemporaryExpr", "CXXFunctionalCastExpr"):
+            if x.get("kind") in ("ImplicitCastExpr", "CXXFunctionalCastExpr") and x.get("castKind") not in ("NoOp", "ConstructorConversion"):
+                self.bad(e, "operator call on an object reached through cast '%s'" % x.get("castKind"))
+            x = x["inner"][0]
+        if x.get("kind") not in ("CXXTemporaryObjectExpr", "CXXConstructExpr") or x.get("inner"):
+            self.bad(e, "overloaded operator call whose object is not a default-constructed temporary `F()`")
+        rec = self.u.idx.rec_of_method.get(declid)
+        if rec is None:
+            self.bad(e, "overloaded operator that is not a member of a class")
+        for c in rec.get("inner", []):
+            if c.get("kind") == "FieldDecl":
+                self.bad(e, "functor class '%s' has data members" % rec.get("name"))
+            if c.get("kind") == "CXXConstructorDecl" and not c.get("isImplicit") and \
+                    any(b.get("kind") == "CompoundStmt" and b.get("inner") for b in c.get("inner", [])):
+                self.bad(e, "functor class '%s' has a user-provided constructor with a body" % rec.get("name"))
+            if c.get("kind") == "CXXRecordDecl" and False:
+                pass
+        if any(b.get("kind") == "CXXBaseSpecifier" for b in rec.get("inner", [])) or rec.get("bases"):
+            self.bad(e, "functor class '%s' has base classes" % rec.get("name"))
+
     def call(self, e, stmt):
         k = e["kind"]
         head = e["inner"][0]
@@ -1506,7 +1529,13 @@ class FnTranslator:
             if h.get("kind") != "DeclRefExpr":
                 self.bad(e, "call through something that is not a function name")
             declid = h["referencedDecl"]["id"]
+            if k == "CXXOperatorCallExpr":
+                # F()(args): call operator of a stateless functor temporary; the temporary is dropped
+                self.check_stateless_temporary(args[0], declid, e)
+                args = args[1:]
         m, coqname = self.u.callee(declid, e)
+        if k == "CXXOperatorCallExpr" and m["record"] is not None:
+            self.bad(e, "operator call on an object with state")
         argv = []
         if m["needs_fuel"]:
             self.fi.needs_fuel = True
@@ -1740,7 +1769,7 @@ def load_registry(exclude=None):
             if m["unit"] == exclude:
                 continue
             for f in m["functions"]:
-                reg[(f["cxx"], f["sig"])] = f
+                reg.setdefault((f["cxx"], f["sig"]), []).append(f)     # several units may translate the same function
     return reg
 
 
